@@ -21,6 +21,8 @@ ChainFmts == <<"class", "pydantic", "function", "argparse", "docstring">>
 \* the fixed configuration each format is used with inside a chain: defaults live in code for the code formats,
 \* a docstring has nowhere else to carry them
 CfgOf(f) == IF f = "docstring" THEN [style |-> "rest", edd |-> TRUE, et |-> TRUE]
+            ELSE IF f = "docstring_google" THEN [style |-> "google", edd |-> TRUE, et |-> TRUE]
+            ELSE IF f = "docstring_numpydoc" THEN [style |-> "numpydoc", edd |-> TRUE, et |-> TRUE]
             ELSE [fmt |-> f, style |-> "rest", edd |-> FALSE, ann |-> TRUE, kwonly |-> TRUE]
 
 \* ---- domains -------------------------------------------------------------------------------------
@@ -37,8 +39,27 @@ Rets == IF Mode = "chain" THEN {NoRet} ELSE {NoRet, [typ |-> "int", def |-> "abs
 
 \* ---- one round trip on the abstract interface ------------------------------------------------------
 Top == [doc |-> "TOP", params |-> <<>>, ret |-> NoRet]
-AB(f, x) == IF f = "docstring" THEN D!AsBuilt(Enabled, CfgOf(f), x) ELSE F!AsBuilt(Enabled, CfgOf(f), x)
-Nm(f, x) == IF f = "docstring" THEN D!Norm(CfgOf(f), x) ELSE F!Norm(CfgOf(f), x)
+DocFmts == {"docstring", "docstring_google", "docstring_numpydoc"}
+\* json_schema and the SQLAlchemy variants have their own modules (JsonSchema.tla, Sql.tla); inside the conversion machine
+\* their round trip is the identity on their own domain (what C05/C06 demand), plus Sql's EnsurePK on the first round
+DataFmts == {"json_schema", "sqlalchemy", "sqlalchemy_table"}
+IdNorm(x) == [raises |-> "no", wild |-> FALSE, doc |-> x.doc,
+              params |-> [k \in 1..Len(x.params) |-> [present |-> TRUE, wild |-> FALSE, typs |-> {x.params[k].typ},
+                                                       def |-> x.params[k].def, doc |-> x.params[k].doc]],
+              ret |-> [present |-> FALSE, wild |-> FALSE, typs |-> {}, def |-> "absent", doc |-> "absent"]]
+AB(f, x) == IF f \in DocFmts THEN D!AsBuilt(Enabled, CfgOf(f), x)
+            ELSE IF f \in DataFmts THEN [out |-> IdNorm(x), fired |-> {}]
+            ELSE F!AsBuilt(Enabled, CfgOf(f), x)
+Nm(f, x) == IF f \in DocFmts THEN D!Norm(CfgOf(f), x) ELSE IF f \in DataFmts THEN IdNorm(x) ELSE F!Norm(CfgOf(f), x)
+\* the domain on which a format is quantified in C08
+JsonTyps == {"int", "float", "str", "bool", "dict", "Opt_int", "Opt_float", "Opt_str", "Opt_bool", "Opt_dict", "Lit"}
+InFixDomain(f, x) ==
+  CASE f = "json_schema" -> \A k \in 1..Len(x.params) : x.params[k].typ \in JsonTyps /\ x.params[k].doc \in {"plain", "dot"}
+    [] f \in {"sqlalchemy", "sqlalchemy_table"} ->
+         \A k \in 1..Len(x.params) : x.params[k].typ \in JsonTyps /\ x.params[k].doc \in {"plain", "dot"}
+                                       /\ (IsOpt(x.params[k].typ) => x.params[k].def \in {"absent", "None"})
+    [] f \in {"docstring_google", "docstring_numpydoc"} -> SigLegal(x.params) /\ \A k \in 1..Len(x.params) : x.params[k].doc \in {"plain", "dot"}
+    [] OTHER -> TRUE
 \* the normed interface back as an interface (typed entries: the acceptable set is a singleton)
 One(S) == CHOOSE t \in S : TRUE
 BackP(e) == [typ |-> One(e.typs), def |-> e.def, doc |-> e.doc]
@@ -53,7 +74,11 @@ FixFired(f, x) ==
      \/ (d = "fix_function_neg_default_ast_reemit_raises" /\ f = "function"
           /\ SomeP(x, LAMBDA p : p.typ = "Union_int_str" /\ p.def = "int_neg"))  \* round 1 returns an AST default, round 2 cannot emit it
      \/ (d = "fix_argparse_dict_decays_to_str" /\ f = "argparse"
-          /\ SomeP(x, LAMBDA p : p.typ = "dict" /\ p.def = "absent"))}         \* dict -> Optional[dict] = None -> Optional[str]
+          /\ SomeP(x, LAMBDA p : p.typ = "dict" /\ p.def = "absent"))         \* dict -> Optional[dict] = None -> Optional[str]
+     \/ (d = "fix_gn_return_dot_after_forced_default" /\ f \in {"docstring_google", "docstring_numpydoc"} /\ x.ret # NoRet
+          /\ SomeP(x, LAMBDA p : p.def \notin {"absent", "str_empty"}))    \* round 1 forces a return default, round 2 then appends "."
+     \/ (d = "fix_sqlalchemy_doc_whitespace_grows" /\ f = "sqlalchemy")      \* every round indents the class description once more
+     \/ (d = "fix_numpydoc_untyped_unstable" /\ f = "docstring_numpydoc" /\ SomeP(x, LAMBDA p : p.typ = "absent"))}
 Fired(f, x) == IF x = Top THEN {} ELSE AB(f, x).fired \cup (IF Mode = "fix" THEN FixFired(f, x) ELSE {})
 RT(f, x) == IF x = Top \/ Fired(f, x) # {} THEN Top ELSE Back(Nm(f, x))
 
@@ -61,13 +86,15 @@ VARIABLES init, cur, hist, fired
 vars == <<init, cur, hist, fired>>
 
 Fmts == IF Mode = "chain" THEN {ChainFmts[k] : k \in 1..Len(ChainFmts)} ELSE FixFmts
-FmtSeq == IF Mode = "chain" THEN ChainFmts ELSE <<"class", "pydantic", "function", "argparse", "docstring">>
+FmtSeq == IF Mode = "chain" THEN ChainFmts
+          ELSE <<"class", "pydantic", "function", "argparse", "docstring", "json_schema", "sqlalchemy", "sqlalchemy_table",
+                 "docstring_google", "docstring_numpydoc">>
 
 Init == /\ \E ps \in ParamSeqs, r \in Rets : init = [doc |-> "one", params |-> ps, ret |-> r]
         /\ cur = init /\ hist = <<>> /\ fired = {}
 
 Hop(f) == /\ Len(hist) < MaxLen
-          /\ (Mode = "fix" => (IF hist = <<>> THEN TRUE ELSE hist[1] = f))
+          /\ (Mode = "fix" => (IF hist = <<>> THEN InFixDomain(f, init) ELSE hist[1] = f))
           /\ (hist = <<>> => \E k \in 1..Len(FmtSeq) : FmtSeq[k] = f /\ k % NShards = Shard)   \* shard by first format
           /\ cur' = RT(f, cur) /\ fired' = fired \cup Fired(f, cur)
           /\ hist' = Append(hist, f) /\ UNCHANGED init
